@@ -25,7 +25,7 @@ KEY_OVERRUN = "mempool:data-area-overrun"
 KEY_SHIFT = "mempool:free-shift-31"
 REQUIRED_MEMPOOL = ["Sqfs.MemPool." + t for t in (
     "inv_empty", "inv_set", "inv_clear", "inv_link", "createPool_wf", "alloc_step", "alloc_in_bounds", "alloc_fresh", "null_unchanged",
-    "live_disjoint", "bitmap_exact", "free_outside_detected", "witness_bitmap_count_zero", "witness_data_area_overrun")]
+    "live_disjoint", "bitmap_exact", "free_outside_detected", "free_step", "history_inv", "witness_bitmap_count_zero", "witness_data_area_overrun")]
 
 
 def aligned(o):
